@@ -39,6 +39,7 @@ const (
 	bPanicPassed
 	bPanicBlocked
 	bPanicCompleted
+	bDirtyNil // check: marks the context's pooled result as blocked (a dry run of a real rule check) but returns nil: a pass
 )
 
 type slot struct {
@@ -90,6 +91,9 @@ func (s *slot) Check(ctx *base.EntryContext) *base.TokenResult {
 		r := ctx.RuleCheckResult
 		r.ResetToBlockedWithCause(base.BlockType(10+len(s.name)), "msg-"+s.name, &rule{s.name}, s.name)
 		return r
+	case bDirtyNil:
+		ctx.RuleCheckResult.ResetToBlockedWithCause(base.BlockType(10+len(s.name)), "dry-run-"+s.name, &rule{s.name}, s.name)
+		return nil
 	case bPanic:
 		boom("check", s)
 	}
@@ -195,7 +199,7 @@ func TestChain(t *testing.T) {
 						row[i] = bOK
 					}
 				case 1:
-					row[i] = rapid.SampledFrom([]int{bOK, bOK, bPassResult, bShouldWait, bBlockNew, bBlockPooled, bPanic}).Draw(t, "beh")
+					row[i] = rapid.SampledFrom([]int{bOK, bOK, bPassResult, bShouldWait, bBlockNew, bBlockPooled, bPanic, bDirtyNil}).Draw(t, "beh")
 					if n > 65 && rapid.IntRange(0, 39).Draw(t, "rareBlock") != 0 {
 						row[i] = bOK
 					}
